@@ -6,7 +6,7 @@
     [labrea.cache.disabled()]); all theorems hold for ALL user code [u], ALL resolution budgets
     [fuel], ALL well-formed dictionaries (unique keys per section) and ALL expressions of the
     boolean fragment [frag] (Proofs/FrameProofs.v: every constructor except Map, Template nodes,
-    AllOptions, non-empty pre-set dictionaries, option domains and effects — those are covered by
+    AllOptions, non-empty pre-set dictionaries and effects — those are covered by
     the correspondence + oracle of harness/props/c03.py only).
 
     [clean_at u fuel e o] is the computed side condition (Model/EvalRun.v): every option the
